@@ -11,8 +11,11 @@ package kafka
 // acknowledges in a scripted completion order, and after every Plugin.Commit the
 // client's MarkedOffsets() are judged against the recorded history.
 //
-// Touched unexported surface: Plugin{client, s, cancel}, splitConsume{consumers},
-// pconsumer{fetches}, tp, Config (exported).
+// Touched unexported surface: Plugin{client, s, cancel}, splitConsume{consumers}
+// and its Assigned/Lost, pconsumer{fetches}, tp; the offline fallback route
+// (VERIF_C10_CLIENT=offline or no loopback listener) also repeats Start's field
+// assignments (controller, logger, config, idByTopic, metaTemplater, registerMetrics,
+// splitConsume{...}). A rename of any of them breaks the build of this check only.
 
 import (
 	"context"
